@@ -400,13 +400,37 @@ def recover_cek(alg: str, enc: str, h: dict, ek: bytes, key: RefKey, sender: Ref
 
 
 def decrypt(token, resolver, sender_resolver=None, policy: str = "all", allow=None, inflate_limit: int = MAX_INFLATE,
-            strict_deflate: bool = False) -> Result:
+            strict_deflate: bool = False, disjoint: bool = False) -> Result:
     """policy 'all': every recipient must yield the CEK; 'any': at least one must.  In both
     cases all recovered CEKs must be equal."""
     try:
+        if disjoint:
+            _header_names_disjoint(token)
         return _decrypt(token, resolver, sender_resolver, policy, allow, inflate_limit, strict_deflate)
     except Reject as r:
         return Result("REJECT", r.reason, r.klass)
+
+
+def _header_names_disjoint(token) -> None:
+    """RFC 7516, section 5.2 step 4 / section 7.2.1: the same Header Parameter name MUST NOT occur in distinct JSON object values that
+    together comprise the JOSE Header (a receiver that follows the text refuses such a JWE)"""
+    if not isinstance(token, dict):
+        return
+    try:
+        protected = json.loads(b64u_dec_lenient(token.get("protected") or "") or b"{}")
+    except (B64Error, ValueError, AttributeError, RecursionError):
+        return
+    unprotected = token.get("unprotected") or {}
+    recs = token["recipients"] if "recipients" in token else [token]
+    if not isinstance(protected, dict) or not isinstance(unprotected, dict) or not isinstance(recs, list):
+        return
+    for r in recs:
+        rh = (r.get("header") or {}) if isinstance(r, dict) else {}
+        if not isinstance(rh, dict):
+            continue
+        dup = sorted((set(protected) & set(unprotected)) | (set(protected) & set(rh)) | (set(unprotected) & set(rh)))
+        if dup:
+            raise Reject("duplicate-header-names", f"{dup} occur in more than one of the protected, unprotected and per-recipient headers")
 
 
 def _decrypt(token, resolver, sender_resolver, policy, allow, inflate_limit, strict_deflate=False) -> Result:
